@@ -62,7 +62,7 @@ def main(tier):
     of = os.path.join(d, 'hists.json')
     rc_, o_ = V.run([hr, 'hist', hf, of], timeout=1800)
     if rc_ != 0:
-        raise V.Broken('h_route hist failed: ' + o_[-1000:])
+        V.harness_exit('h_route:hist', rc_, o_)
     hres = json.load(open(of))
     LS = hres['LS']
     ninc = 0
